@@ -234,7 +234,8 @@ def sdo_xfer_inst(xf, tgt, N, pre=0, ptgt=6, dom=16, ubl=4, nseg=2, lose=0, bs=2
                  'NSEG': nseg, 'LOSE': lose, 'BS': bs, 'FILL': fill})
     if xf == 4:
         defs.update({'AK': '{' + ','.join(str(a) for a in (ak or (0,))) + '}', 'AKN': len(ak), 'BS2': bs2 if bs2 is not None else bs, 'BSP': bsp})
-    name = 'sdo_xfer_x%d_%s_n%d_s%d%s%s%s%s' % (xf, SDO_TGT[tgt], N, nseg, ('f%d' % fill) if fill else '', ('_l%d' % lose) if xf == 3 else '', ('_b%d%s%s' % (bs, ('to%d' % bs2) if bs2 not in (None, bs) else '', (('_a' + ''.join(str(a) for a in ak)) if ak else '') + (('p%d' % bsp) if bsp else ''))) if xf == 4 else '',
+    xt_names = ['u8', 'u16', 'u32', 'nodeid32', 'dn16', '-', 'domain', 'string']      # targets of sdo_xfer.c (xt[])
+    name = 'sdo_xfer_x%d_%s_n%d_s%d%s%s%s%s' % (xf, xt_names[tgt], N, nseg, ('f%d' % fill) if fill else '', ('_l%d' % lose) if xf == 3 else '', ('_b%d%s%s' % (bs, ('to%d' % bs2) if bs2 not in (None, bs) else '', (('_a' + ''.join(str(a) for a in ak)) if ak else '') + (('p%d' % bsp) if bsp else ''))) if xf == 4 else '',
                                              ('_pre%d' % pre + ('_%s' % SDO_TGT[ptgt] if ptgt != 6 else '')) if pre else '')
     kinds = ['expedited download + read back', 'segmented download', 'segmented upload', 'block download', 'block upload with partial acknowledges']
     size = '1..4' if nseg == 0 else ('5..7' if nseg == 1 else '%d..%d' % (7 * (nseg - 1) + 1, 7 * nseg))
@@ -243,7 +244,7 @@ def sdo_xfer_inst(xf, tgt, N, pre=0, ptgt=6, dom=16, ubl=4, nseg=2, lose=0, bs=2
     return Inst(name, 'sdo_xfer.c', defs, unwind=max(dom + 10, 7 * N + 2, 22), unwindset=node_unwind(N, dom=dom), objbits=10,
                 harness_only=['XF', 'TGT', 'PRE', 'PTGT', 'UBL', 'NSEG', 'LOSE', 'BS', 'FILL', 'AK', 'AKN', 'BS2', 'BSP'], family='sdo_xfer', weight=3 if xf >= 3 else 1,
                 bounds='%s of %s, block size N=%d, size %s bytes symbolic (%d segments), payload/contents/size-indication symbolic%s%s%s' % (
-                    kinds[xf], SDO_TGT[tgt], N, size, nseg,
+                    kinds[xf], xt_names[tgt], N, size, nseg,
                     (', segment %d of every first try lost' % lose) if (xf == 3 and lose) else '',
                     (', requested block size %d (then %s), partial acknowledges %s then complete ones' % (bs, bs2 if bs2 is not None else bs, list(ak))) if xf == 4 else '',
                     (', block size %d announced inside the partial acknowledges' % bsp if bsp else '') + ('' if not pre else ('; preceded by an arbitrary server state of phase %d (open on %s) and %s' % ((pre - 1) % 5, SDO_TGT[ptgt], 'a client abort' if pre <= 5 else ('NMT reset communication' if pre <= 10 else 'nothing else'))))))
